@@ -19,6 +19,10 @@ const K: usize = 4;
 fn spec(cfg: Config, sender: Side, depth: usize, devs: usize) -> SeqSpec {
     let proto = cfg.proto();
     let mut prefix = sess::handshake_ops(&proto, &[0, 0, 0, 0]);
+    // the (feature-gated) raw-split export is an observation of the finished handshake: the transport states made
+    // afterwards are the same
+    prefix.push(Op::RawSplit { side: Side::I });
+    prefix.push(Op::RawSplit { side: Side::R });
     prefix.extend(sess::convert_ops(Mode::TT));
     let recv = sender.peer();
     let alphabet = Arc::new(move |e: &Exec| {
